@@ -442,8 +442,20 @@ class BuiltinMixin:
             recv = self.lift(recv)
         if isinstance(recv, PyC):
             recv = self.lift(recv)
+        if isinstance(recv, SymObj):
+            dv = self.oattrs(st, recv).get("__dictview__")
+            if dv is not None and name in ("items", "values", "keys", "get"):
+                recv = dv
+            else:
+                recv = self.lift(recv)
         k = recv.kind
         t = asV(recv)
+        if k in (None, "obj") and name in ("items", "values", "keys", "get") and recv.sort == "V":
+            # a dict, or an object of a dict subclass: its mapping
+            self.obl("kind", node, st, f"(or (k_dict {t}) (and (k_obj {t}) (subclass (class_of (oid {t})) T_DICT)))", detail=f"receiver of .{name}() is a mapping")
+            t = self.as_dict(t)
+            k = "dict"
+            self.trusted_used.add("objects of dict subclasses (_PropertyDict, PatternDict): their mapping is obj_dict(x); dict methods not overridden behave as dict's")
         if k == "dict":
             if name == "items":
                 return [(st, Val(t, kind="dict_items"))]
@@ -455,6 +467,11 @@ class BuiltinMixin:
                 key = self.lift(args[0])
                 d = self.lift(args[1]) if len(args) > 1 else Val("v_none")
                 ks = asS(key)
+                hint = None
+                try:
+                    hint = self.contract.kinds.get(ast.unparse(node))
+                except Exception:
+                    pass
                 return [(st, Val(Ite(f"(dhas {t} {ks})", f"(dval {t} {ks})", asV(d)),
                                  fresh=d.fresh if d.fresh != FALSE else FALSE))]
         if k == "str":
